@@ -24,13 +24,23 @@ variables; calls to functions translated earlier in the same run (also from anot
 that take struct pointers (`ctx`, `&local`), by-value structs and scalars - the callee's output tuple is destructured and
 written back to the pointed-to members; calls to scalar functions on an explicit allow-list (`externs`) that have no
 body here (libm functions NumOps has no name for) become function-typed binders `x_<name>` of the generated definition,
-passed on to callees that need them."""
+passed on to callees that need them.
+
+Version 3 additions (bounded symbolic execution): `f@n=3,m=2;A=6,T=6` translates f with its integer parameters fixed and
+its array parameters given a length.  Integer variables then hold translation-time constants, pointer variables hold
+(array, offset) pairs, `for`/`while`/`do` loops whose conditions are decided at translation time are unrolled, `p++`, `p + k`,
+`p - q`, `p < q`, `p[i]`, `*p` are resolved to cells, memcpy/memmove/memset-style helpers with constant sizes become cell
+copies.  Every cell of the declared arrays is a binder (in declaration order) and every cell of every non-const array is an
+output (in order); an access outside the declared length is an error.  A branch on data whose arms leave an integer or a
+pointer in different states, a loop whose condition depends on data, or `break`/`continue` are outside the subset."""
 import json
 import math
 import re
 import subprocess
 import sys
 from fractions import Fraction
+
+sys.setrecursionlimit(200000)
 
 LIB1 = {"exp": "Exp", "log": "Log", "sin": "Sin", "cos": "Cos", "tan": "Tan", "atan": "Atan", "asin": "Asin",
         "acos": "Acos", "sinh": "Sinh", "cosh": "Cosh", "tanh": "Tanh", "expm1": "Expm1", "log1p": "Log1p", "floor": "Floor"}
@@ -146,6 +156,25 @@ class IntConst:
         self.v = v
 
 
+class Ptr:
+    """pointer into an array parameter / local array: base name and element offset (translation-time constants)"""
+
+    def __init__(self, base, off):
+        self.base, self.off = base, off
+
+    def __eq__(self, o):
+        return isinstance(o, Ptr) and (self.base, self.off) == (o.base, o.off)
+
+    def __hash__(self):
+        return hash((self.base, self.off))
+
+    def __repr__(self):
+        return "Ptr(%s,%d)" % (self.base, self.off)
+
+
+MAX_UNROLL = 200000
+
+
 class Fn:
     """Translation state of one function (symbolic execution with SSA naming)."""
 
@@ -166,6 +195,10 @@ class Fn:
         self.extern_ok = {}         # allow-list: name -> arity
         self.param_kinds = []       # per C parameter: ("ptr"|"val", name, [real paths]) | ("real", name)
         self.spec = {}              # integer parameters fixed to a constant for this translation (name -> value)
+        self.int_vars = set()       # integer and pointer variables (their values are translation-time constants)
+        self.alen = {}              # declared lengths of array parameters (name -> cells); bounded mode when non-empty
+        self.const_arrays = set()   # array parameters declared pointer-to-const
+        self.steps = 0
 
     def use_extern(self, name):
         if name not in self.externs:
@@ -262,12 +295,20 @@ class Fn:
             b = n["inner"][0]
             while b["kind"] in ("ImplicitCastExpr", "ParenExpr"):
                 b = b["inner"][0]
+            if self.alen and "*" in b.get("type", {}).get("qualType", ""):
+                pv = self.expr(n["inner"][0], env)
+                if isinstance(pv, Ptr):
+                    return self.cell(pv.base, pv.off + idx, n)
             if b["kind"] == "DeclRefExpr":
                 return ("arr", b["referencedDecl"]["name"], idx)
             if b["kind"] == "MemberExpr":
                 base = self.lvalue_base(b["inner"][0], env)
                 return ("mem", base[0], "%s%s[%d]" % (base[1] + "." if base[1] else "", b["name"], idx))
         if k == "UnaryOperator" and n.get("opcode") == "*":
+            if self.alen:
+                pv = self.expr(n["inner"][0], env)
+                if isinstance(pv, Ptr):
+                    return self.cell(pv.base, pv.off, n)
             b = n["inner"][0]
             while b["kind"] in ("ImplicitCastExpr", "ParenExpr"):
                 b = b["inner"][0]
@@ -291,6 +332,12 @@ class Fn:
             b = self.lvalue_base(n["inner"][0], env)
             return (b[0], "%s[%d]" % (b[1], idx))
         raise Unsupported("member base %s at %s" % (n["kind"], self.where(n)))
+
+    def cell(self, base, idx, n):
+        """location of cell idx of a declared array; out of the declared length is an error (undefined in C)"""
+        if base in self.alen and not (0 <= idx < self.alen[base]):
+            raise Unsupported("access to %s[%d] outside the declared length %d at %s" % (base, idx, self.alen[base], self.where(n)))
+        return ("arr", base, idx)
 
     def read_loc(self, loc, env, n):
         if loc in env:
@@ -348,6 +395,10 @@ class Fn:
             v = self.expr(n["inner"][-1], env)
             if ck in ("IntegralToFloating",):
                 return self.real(v)
+            if ck == "IntegralCast" and isinstance(v, IntConst):
+                return self.wrap_int(v, n)
+            if ck in ("BitCast", "NullToPointer") and isinstance(v, (Ptr, IntConst)):
+                return v
             if ck in ("LValueToRValue", "NoOp", "FloatingCast", "IntegralCast", "FunctionToPointerDecay", "ArrayToPointerDecay", "ToVoid"):
                 return v
             if ck == "FloatingToIntegral":
@@ -364,6 +415,25 @@ class Fn:
                     return IntConst(self.tu.enums[nm_])
                 raise Unsupported("enum constant %s of unknown value at %s" % (nm_, self.where(n)))
             return self.read_loc(self.lvalue(n, env), env, n)
+        if k == "UnaryExprOrTypeTraitExpr" and n.get("name") == "sizeof":
+            q = (n.get("argType") or {}).get("qualType") or (n["inner"][0]["type"]["qualType"] if n.get("inner") else "")
+            q = q.replace("const ", "").strip()
+            sizes = {"double": 8, "float": 4, "long double": 16, "a_f64": 8, "a_f32": 4, "a_real": self.real_size()}
+            if q in sizes:
+                return IntConst(sizes[q])
+            raise Unsupported("sizeof(%s) at %s" % (q, self.where(n)))
+        if k == "UnaryOperator" and n["opcode"] in ("++", "--"):
+            loc = self.lvalue(n["inner"][0], env)
+            cur = self.read_loc(loc, env, n)
+            d = 1 if n["opcode"] == "++" else -1
+            if isinstance(cur, IntConst):
+                new = IntConst(cur.v + d)
+            elif isinstance(cur, Ptr):
+                new = Ptr(cur.base, cur.off + d)
+            else:
+                raise Unsupported("%s on a value that is not a translation-time constant at %s" % (n["opcode"], self.where(n)))
+            env[loc] = new
+            return cur if n.get("isPostfix") else new
         if k == "UnaryOperator":
             op = n["opcode"]
             if op == "*" :
@@ -385,11 +455,37 @@ class Fn:
                 self.expr(n["inner"][0], env)
                 return self.expr(n["inner"][1], env)
             a, b = self.expr(n["inner"][0], env), self.expr(n["inner"][1], env)
-            if isinstance(a, IntConst) and isinstance(b, IntConst):
+            if isinstance(a, Ptr) or isinstance(b, Ptr):
+                if op == "+" and isinstance(a, Ptr) and isinstance(b, IntConst):
+                    return Ptr(a.base, a.off + b.v)
+                if op == "+" and isinstance(b, Ptr) and isinstance(a, IntConst):
+                    return Ptr(b.base, b.off + a.v)
+                if op == "-" and isinstance(a, Ptr) and isinstance(b, IntConst):
+                    return Ptr(a.base, a.off - b.v)
+                if isinstance(a, Ptr) and isinstance(b, Ptr) and a.base == b.base:
+                    if op == "-":
+                        return IntConst(a.off - b.off)
+                    if op in ("<", ">", "<=", ">=", "==", "!="):
+                        return IntConst(int({"<": a.off < b.off, ">": a.off > b.off, "<=": a.off <= b.off, ">=": a.off >= b.off,
+                                             "==": a.off == b.off, "!=": a.off != b.off}[op]))
+                raise Unsupported("pointer arithmetic %s at %s" % (op, self.where(n)))
+            if isinstance(a, IntConst) and isinstance(b, IntConst) and not is_real_type(n["inner"][0].get("type", {}).get("qualType", "")) \
+                    and not is_real_type(n["inner"][1].get("type", {}).get("qualType", "")):
                 if op in "+-*":
-                    return IntConst({"+": a.v + b.v, "-": a.v - b.v, "*": a.v * b.v}[op])
+                    return self.wrap_int(IntConst({"+": a.v + b.v, "-": a.v - b.v, "*": a.v * b.v}[op]), n)
                 if op == "/" and b.v != 0:
                     return IntConst(int(a.v / b.v))
+                if op == "%" and b.v != 0:
+                    return IntConst(int(math.fmod(a.v, b.v)))
+                if op in ("<<", ">>", "&", "|", "^"):
+                    return self.wrap_int(IntConst({"<<": a.v << b.v, ">>": a.v >> b.v, "&": a.v & b.v, "|": a.v | b.v, "^": a.v ^ b.v}[op]), n)
+                if op in ("<", ">", "<=", ">=", "==", "!="):
+                    return IntConst(int({"<": a.v < b.v, ">": a.v > b.v, "<=": a.v <= b.v, ">=": a.v >= b.v,
+                                         "==": a.v == b.v, "!=": a.v != b.v}[op]))
+                if op == "&&":
+                    return IntConst(int(bool(a.v) and bool(b.v)))
+                if op == "||":
+                    return IntConst(int(bool(a.v) or bool(b.v)))
             is_real = is_real_type(n["type"]["qualType"]) or op in ("<", ">", "<=", ">=", "==", "!=")
             if op in ("&&", "||"):
                 return "(%s %s %s)" % ("andb" if op == "&&" else "orb", self.boolean(a), self.boolean(b))
@@ -415,11 +511,24 @@ class Fn:
             op = n["opcode"][0]
             loc = self.lvalue(n["inner"][0], env)
             cur = self.read_loc(loc, env, n)
-            rhs = self.real(self.expr(n["inner"][1], env))
-            v = "(%s O %s %s)" % ({"+": "add", "-": "sub", "*": "mul", "/": "div"}[op], cur, rhs)
+            rv = self.expr(n["inner"][1], env)
+            if isinstance(cur, Ptr) and isinstance(rv, IntConst) and op in "+-":
+                env[loc] = Ptr(cur.base, cur.off + (rv.v if op == "+" else -rv.v))
+                return env[loc]
+            if isinstance(cur, IntConst) and isinstance(rv, IntConst) and not is_real_type(n["inner"][0]["type"]["qualType"]):
+                env[loc] = self.wrap_int(IntConst({"+": cur.v + rv.v, "-": cur.v - rv.v, "*": cur.v * rv.v,
+                                                   "/": int(cur.v / rv.v) if rv.v else 0, "%": int(math.fmod(cur.v, rv.v)) if rv.v else 0}[op]), n["inner"][0])
+                return env[loc]
+            if isinstance(cur, (Ptr,)) or isinstance(rv, Ptr):
+                raise Unsupported("compound assignment on a pointer at %s" % self.where(n))
+            rhs = self.real(rv)
+            v = "(%s O %s %s)" % ({"+": "add", "-": "sub", "*": "mul", "/": "div"}[op], self.real(cur), rhs)
             return self.assign(loc, v, env)
         if k == "ConditionalOperator":
-            c = self.boolean(self.expr(n["inner"][0], env))
+            c0 = self.expr(n["inner"][0], env)
+            if isinstance(c0, IntConst):
+                return self.expr(n["inner"][1 if c0.v else 2], env)
+            c = self.boolean(c0)
             a, b = self.real(self.expr(n["inner"][1], env)), self.real(self.expr(n["inner"][2], env))
             return "(if %s then %s else %s)" % (c, a, b)
         if k == "CallExpr":
@@ -431,6 +540,25 @@ class Fn:
             fname = callee["referencedDecl"]["name"]
             if fname in self.translated and not (self.translated[fname]["scalar_only"] and not self.translated[fname].get("externs")):
                 return self.call_translated(fname, n, env)
+            if fname in ("a_copy", "a_move", "memcpy", "memmove", "__builtin_memcpy", "__builtin_memmove") and self.alen:
+                d, sv, nb = (self.expr(a, env) for a in n["inner"][1:4])
+                if not (isinstance(d, Ptr) and isinstance(sv, Ptr) and isinstance(nb, IntConst)) or nb.v % self.real_size():
+                    raise Unsupported("%s with arguments that are not translation-time constants at %s" % (fname, self.where(n)))
+                cnt = nb.v // self.real_size()
+                vals = [self.read_loc(self.cell(sv.base, sv.off + i, n), env, n) for i in range(cnt)]     # read all, then write
+                for i, v_ in enumerate(vals):
+                    env[self.cell(d.base, d.off + i, n)] = v_
+                return d
+            if fname in ("a_zero", "__builtin_memset", "memset") and self.alen:
+                aa = [self.expr(a, env) for a in n["inner"][1:]]
+                d, nb = aa[0], aa[-1]
+                if fname != "a_zero" and not (isinstance(aa[1], IntConst) and aa[1].v == 0):
+                    raise Unsupported("memset with a non-zero byte at %s" % self.where(n))
+                if not (isinstance(d, Ptr) and isinstance(nb, IntConst)) or nb.v % self.real_size():
+                    raise Unsupported("%s with arguments that are not translation-time constants at %s" % (fname, self.where(n)))
+                for i in range(nb.v // self.real_size()):
+                    env[self.cell(d.base, d.off + i, n)] = IntConst(0)
+                return d
             args = [self.real(self.expr(a, env)) for a in n["inner"][1:]]
             base = fname[:-1] if fname.endswith("f") and fname[:-1] in list(LIB1) + list(LIB2) + ["sqrt", "fabs"] else fname
             if base in LIB1:
@@ -495,6 +623,18 @@ class Fn:
             env[loc] = v
         return rv
 
+    def wrap_int(self, v, n):
+        """value of an integer expression in its C type (unsigned types wrap)"""
+        q = n.get("type", {}).get("qualType", "")
+        q = q.split("':'")[-1].strip("'") if "':'" in q else q
+        bits = {"unsigned int": 32, "unsigned long": 64, "unsigned long long": 64, "unsigned char": 8, "unsigned short": 16}.get(q.replace("const ", ""))
+        if bits:
+            return IntConst(v.v % (1 << bits))
+        return v
+
+    def real_size(self):
+        return getattr(self, "_real_size", 8)
+
     def coerce_for(self, lhs, v):
         return self.real(v) if not isinstance(v, IntConst) or is_real_type(lhs["type"]["qualType"]) else v
 
@@ -504,7 +644,7 @@ class Fn:
         return v
 
     def assign(self, loc, v, env):
-        if isinstance(v, IntConst):
+        if isinstance(v, (IntConst, Ptr)):
             env[loc] = v
             return v
         name = self.fresh(loc[-1] if loc[0] != "arr" else "%s_%d" % (loc[1], loc[2]))
@@ -532,6 +672,8 @@ class Fn:
                 if m:
                     continue                      # local array: cells appear when assigned
                 init = [c for c in d.get("inner", []) if "Expr" in c["kind"] or "Literal" in c["kind"] or "Operator" in c["kind"]]
+                if is_int_type(q.split("':'")[0].strip("'")) or "*" in q:
+                    self.int_vars.add(d["name"])
                 lrec = self.rec_of_type(q)
                 if lrec:
                     if init:
@@ -542,6 +684,31 @@ class Fn:
                     v = self.real(v) if is_real_type(q) else v
                     self.assign(("var", d["name"]), v, env)
             return self.block(rest, env, k)
+        if kind in ("ForStmt", "WhileStmt", "DoStmt"):
+            if not self.alen and not self.spec:
+                raise Unsupported("loop at %s (only in a specialised translation f@...)" % self.where(s))
+            parts = s["inner"]
+            if kind == "ForStmt":
+                init, _cv, cond, inc, body = (parts + [{}] * 5)[:5]
+                loop = {"kind": "_Loop", "cond": cond, "inc": inc, "body": body, "loc": s.get("loc", {}), "range": s.get("range", {})}
+                return self.block(([init] if init.get("kind") else []) + [loop] + rest, env, k)
+            if kind == "WhileStmt":
+                loop = {"kind": "_Loop", "cond": parts[0], "inc": {}, "body": parts[1], "loc": s.get("loc", {}), "range": s.get("range", {})}
+                return self.block([loop] + rest, env, k)
+            loop = {"kind": "_Loop", "cond": parts[1], "inc": {}, "body": parts[0], "loc": s.get("loc", {}), "range": s.get("range", {})}
+            return self.block([parts[0], loop] + rest, env, k)
+        if kind == "_Loop":
+            self.steps += 1
+            if self.steps > MAX_UNROLL:
+                raise Unsupported("more than %d loop iterations at %s" % (MAX_UNROLL, self.where(s)))
+            c = self.expr(s["cond"], env) if s["cond"].get("kind") else IntConst(1)
+            if not isinstance(c, IntConst):
+                raise Unsupported("loop condition depends on data at %s" % self.where(s))
+            if c.v:
+                return self.block([s["body"]] + ([s["inc"]] if s["inc"].get("kind") else []) + [s] + rest, env, k)
+            return self.block(rest, env, k)
+        if kind in ("BreakStmt", "ContinueStmt"):
+            raise Unsupported("%s at %s" % (kind, self.where(s)))
         if kind == "LabelStmt":
             return self.block(s.get("inner", []) + rest, env, k)
         if kind == "SwitchStmt":
@@ -590,9 +757,12 @@ class Fn:
             return self.flush(self.result(env, rv))
         if kind == "IfStmt":
             parts = s["inner"]
-            cond = self.boolean(self.expr(parts[0], env))
+            cv = self.expr(parts[0], env)
             then_s = [parts[1]]
             else_s = [parts[2]] if len(parts) > 2 else []
+            if isinstance(cv, IntConst):          # decided at translation time
+                return self.block((then_s if cv.v else else_s) + rest, env, k)
+            cond = self.boolean(cv)
             if self.returns(then_s) or self.returns(else_s):
                 # at least one arm leaves the function: each arm carries its own continuation (no duplication of `rest`
                 # unless both arms fall through, which only happens when one of them returns conditionally)
@@ -607,6 +777,9 @@ class Fn:
                 vt, ve = env_t.get(loc, env.get(loc)), env_e.get(loc, env.get(loc))
                 if vt is None or ve is None:
                     continue                      # declared in one arm only: dead after the if
+                if (isinstance(vt, Ptr) or isinstance(ve, Ptr) or (loc[0] == "var" and loc[1] in self.int_vars)) and \
+                        (vt.v if isinstance(vt, IntConst) else vt) != (ve.v if isinstance(ve, IntConst) else ve):
+                    raise Unsupported("the arms of a branch on data leave %s in different states at %s" % (loc[1], self.where(s)))
                 if (vt.v if isinstance(vt, IntConst) else vt) != (ve.v if isinstance(ve, IntConst) else ve):
                     self.assign(loc, "(if %s then %s else %s)" % (cond, self.real(vt), self.real(ve)), env)
             return self.block(rest, env, k)
@@ -643,6 +816,10 @@ class Fn:
                 if kind == "real":
                     outs.append(self.real(env[("mem", pname, path)]))
         for a in self.array_params:
+            if a in self.alen:
+                if a not in self.const_arrays:
+                    outs += [self.real(env[("arr", a, i)]) for i in range(self.alen[a])]
+                continue
             for idx in sorted(i for (t, nm, i) in [l for l in env if l[0] == "arr"] if nm == a):
                 if ("arr", a, idx) in self.written_cells:
                     outs.append(self.real(env[("arr", a, idx)]))
@@ -689,9 +866,20 @@ class Fn:
                     v = self.fresh("%s_%s" % (name, path))
                     binders.append(v)
                     env[("mem", name, path)] = v
-            elif "*" in q and is_real_type(q.replace("*", "").replace("__restrict", "").strip()):
+            elif "*" in q and is_real_type(q.replace("*", "").replace("__restrict", "").replace("restrict", "").replace("const", "").strip()):
                 self.array_params.append(name)
                 self.param_kinds.append(("array", name))
+                if name in self.alen:
+                    if re.match(r"^\s*(const\s+\w+|\w+\s+const)\s*\*", q):
+                        self.const_arrays.add(name)
+                    for i_ in range(self.alen[name]):
+                        v = self.fresh("%s_%d" % (name, i_))
+                        binders.append(v)
+                        env[("arr", name, i_)] = v
+                    env[("var", name)] = Ptr(name, 0)
+                    self.int_vars.add(name)
+                elif self.alen:
+                    raise Unsupported("array parameter %s of %s has no declared length" % (name, self.name))
             elif is_real_type(q):
                 v = self.fresh(name)
                 binders.append(v)
@@ -700,6 +888,7 @@ class Fn:
             elif is_int_type(q) and name in self.spec:
                 env[("var", name)] = IntConst(self.spec[name])          # specialised: `f@name=value`
                 self.param_kinds.append(("int", name))
+                self.int_vars.add(name)
             elif is_int_type(q):
                 raise Unsupported("integer parameter %s of %s" % (name, self.name))
             else:
@@ -742,7 +931,7 @@ class Fn:
                 self._scan_written(c)
 
 
-def translate_file(path, include, cfg, names, extra=(), sigs=None, externs=None):
+def translate_file(path, include, cfg, names, extra=(), sigs=None, externs=None, real_size=8):
     """Returns (coq_text, {name: signature}, {name: error}) for the requested function names, in the given order.
     `sigs` (shared across calls) lets later files call functions translated from earlier ones; `externs` is the
     allow-list {name: arity} of body-less scalar functions that become function binders."""
@@ -756,13 +945,18 @@ def translate_file(path, include, cfg, names, extra=(), sigs=None, externs=None)
         integer parameter p fixed to 3 as gen_f_p3"""
         if nm in sigs or nm in errs:
             return
-        spec = {}
+        spec, alen = {}, {}
         full = nm
         if "@" in nm:
             nm, sp = nm.split("@", 1)
-            for kv in sp.split(","):
+            sp, _, ar = sp.partition(";")
+            for kv in [x for x in sp.split(",") if x]:
                 kk, vv = kv.split("=")
                 spec[kk] = int(vv)
+            alen = {}
+            for kv in [x for x in ar.split(",") if x]:
+                kk, vv = kv.split("=")
+                alen[kk] = int(vv)
         node = tu.funcs.get(nm)
         if node is None:
             errs[nm] = "function %s not found with a body in %s" % (nm, path)
@@ -778,8 +972,10 @@ def translate_file(path, include, cfg, names, extra=(), sigs=None, externs=None)
             fn = Fn(tu, node, sigs)
             fn.extern_ok = dict(externs or {})
             fn.spec = spec
-            if spec:
-                fn.name = nm + "".join("_%s%d" % kv for kv in sorted(spec.items()))
+            fn.alen = alen
+            fn._real_size = real_size
+            if spec or alen:
+                fn.name = nm + "".join("_%s%d" % kv for kv in spec.items())
             text, sig = fn.translate()
             sigs[full] = sig
             out.append("(* %s : inputs %s%s ; outputs: %s%s%s *)\n%s\n" % (
